@@ -154,47 +154,43 @@ Definition belongs (g : grid) (coor center dxs : list Q) : bool :=
              else vsub center coor in
   forallb (fun b => b) (map2 (fun dl e => negb (qltb (e / 2) (Qabs dl))) del ext).
 
-(* Grid::multiple *)
+(* Grid::multiple (after the fix "shift applied in the grid system"):
+   perc = (nmult-1)/2 ; coor1 = indicesToCoordinate(0, perc) ; x0 = flagCell ? coor1 : x0 *)
 Definition zerosZ (g : grid) : list Z := map (fun _ => 0%Z) (g_nx g).
-Definition constQ (g : grid) (q : Q) : list Q := map (fun _ => q) (g_nx g).
 Definition multiple (g : grid) (nmult : list Z) (flagCell : bool) : list Z * list Q * list Q :=
   let nx := map2 (fun n m => if flagCell then (n / m)%Z else (1 + (n - 1) / m)%Z) (g_nx g) nmult in
   let dx := map2 (fun d m => d * inject_Z m) (g_dx g) nmult in
-  let coor1 := i2c g (zerosZ g) (constQ g (-(1 # 2))) true in
-  let coor2 := i2c g (zerosZ g) (constQ g (1 # 2)) true in
-  let dlt := map (fun v => v / 2) (vsub coor2 coor1) in
-  let x0 := if flagCell then vadd coor1 (map2 (fun d m => d * inject_Z m) dlt nmult) else g_x0 g in
+  let coor1 := i2c g (zerosZ g) (map (fun m => (inject_Z m - 1) / 2) nmult) true in
+  let x0 := if flagCell then coor1 else g_x0 g in
   (nx, dx, x0).
-(* Grid::divider *)
+(* Grid::divider (after the same fix): perc = -0.5 + 0.5/nmult *)
 Definition divider (g : grid) (nmult : list Z) (flagCell : bool) : list Z * list Q * list Q :=
   let nx := map2 (fun n m => if flagCell then (n * m)%Z else (1 + (n - 1) * m)%Z) (g_nx g) nmult in
   let dx := map2 (fun d m => d / inject_Z m) (g_dx g) nmult in
-  let coor1 := i2c g (zerosZ g) (constQ g (-(1 # 2))) true in
-  let coor2 := i2c g (zerosZ g) (constQ g (1 # 2)) true in
-  let dlt := map (fun v => v / 2) (vsub coor2 coor1) in
-  let x0 := if flagCell then vadd coor1 (map2 (fun d m => d / inject_Z m) dlt nmult) else g_x0 g in
+  let coor1 := i2c g (zerosZ g) (map (fun m => - (1 # 2) + (1 # 2) / inject_Z m) nmult) true in
+  let x0 := if flagCell then coor1 else g_x0 g in
   (nx, dx, x0).
-(* Grid::dilate: "indicesToCoordinate(_iwork0, _work1)" passes _work1 as *percent*, which aliases the
-   working array being filled: _work1[i] = indice[i]; _work1[i] += percent[i] (= itself) => 2*indice.
+(* Grid::dilate (after the fix "coor is a fresh vector, no percent"): x0 = indicesToCoordinate(-mode*nshift).
    Returns None when a new count is <= 0 (the C++ returns with partially written outputs). *)
 Definition dilate (g : grid) (mode : Z) (nshift : list Z) : option (list Z * list Q * list Q) :=
   let nx := map2 (fun n s => (n + 2 * mode * s)%Z) (g_nx g) nshift in
   if existsb (fun n => (n <=? 0)%Z) nx then None
   else
     let ind := map (fun s => (- mode * s)%Z) nshift in
-    Some (nx, g_dx g, i2c g ind (map inject_Z ind) true).
+    Some (nx, g_dx g, i2c g ind [] true).
 
 Definition derived (g : grid) (p : list Z * list Q * list Q) : grid :=
   {| g_nx := fst (fst p); g_dx := snd (fst p); g_x0 := snd p; g_rot := g_rot g |}.
 
-(* DbGrid::createSubGrid geometry: NX = lim1 - lim0, X0 += lim0 * DX (no rotation applied), same angles *)
+(* DbGrid::createSubGrid geometry (after the fix): NX = lim1 - lim0,
+   X0 = gridIn->getCoordinatesByIndice(lim0) (rotation included), same meshes and angles *)
 Definition subgrid (g : grid) (lim0 lim1 : list Z) : grid :=
   {| g_nx := map2 (fun a b => (b - a)%Z) lim0 lim1;
      g_dx := g_dx g;
-     g_x0 := vadd (g_x0 g) (map2 (fun l d => inject_Z l * d) lim0 (g_dx g));
+     g_x0 := coords_by_indice g lim0 true [] [];
      g_rot := g_rot g |}.
 
-(* Grid::generateMirrorIndex with fuel; None = the loop has not ended within [fuel] iterations *)
+(* the while loop of Grid::generateMirrorIndex with fuel; None = not ended within [fuel] iterations *)
 Fixpoint mirror_fuel (fuel : nat) (nx ix : Z) : option Z :=
   if (ix <? 0)%Z || (nx <=? ix)%Z then
     match fuel with
@@ -203,9 +199,53 @@ Fixpoint mirror_fuel (fuel : nat) (nx ix : Z) : option Z :=
                                else if (nx - 1 <? ix)%Z then (2 * (nx - 1) - ix)%Z else ix)
     end
   else Some ix.
+(* Grid::generateMirrorIndex: "if (nx <= 1) return 0;" then the loop *)
+Definition mirror_index (fuel : nat) (nx ix : Z) : option Z :=
+  if (nx <=? 1)%Z then Some 0%Z else mirror_fuel fuel nx ix.
 
-(* Grid::iteratorInit(order empty) + iteratorNext: state = _iter; the order is the identity,
-   _counts = nx, _nprod = prod nx.  One call returns the indices of _iter, then _iter++ unless last. *)
+(* Grid::iteratorInit + iteratorNext.  _order holds 1-based (signed) dimension numbers: the default is
+   1..ndim, a user order is accepted when every dimension occurs (|o|-1 = idim for some o).
+   iteratorNext: for jdim = ndim-1 .. 0: idim = |_order[jdim]| - 1; nval /= _counts[idim];
+   indices[idim] = iech / nval; iech -= indices[idim] * nval.  Then _iter++ unless last.
+   [None] = an access beyond the arrays. *)
+Fixpoint upd (l : list Z) (k : nat) (v : Z) : option (list Z) :=
+  match l, k with
+  | [], _ => None
+  | _ :: r, O => Some (v :: r)
+  | x :: r, S k' => match upd r k' v with Some r' => Some (x :: r') | None => None end
+  end.
+Definition odim (o : Z) : option nat := if (Z.abs o - 1 <? 0)%Z then None else Some (Z.to_nat (Z.abs o - 1)).
+Fixpoint iter_order_loop (counts : list Z) (ord_rev : list Z) (nval iech : Z) (acc : list Z) : option (list Z) :=
+  match ord_rev with
+  | [] => Some acc
+  | o :: rest =>
+      match odim o with
+      | None => None
+      | Some idim =>
+          match nth_error counts idim with
+          | None => None
+          | Some c => let nval' := Z.quot nval c in
+                      let dv := Z.quot iech nval' in
+                      match upd acc idim dv with
+                      | None => None
+                      | Some acc' => iter_order_loop counts rest nval' (iech - dv * nval')%Z acc'
+                      end
+          end
+      end
+  end.
+Definition iter_order_valid (n : nat) (order : list Z) : bool :=
+  forallb (fun idim => existsb (fun o => Z.eqb (Z.abs o - 1) (Z.of_nat idim)) order) (seq 0 n).
+Definition default_order (n : nat) : list Z := map (fun i => Z.of_nat (S i)) (seq 0 n).
+(* the order kept by iteratorInit ([] = iterator cancelled) *)
+Definition iter_init_order (n : nat) (order : list Z) : list Z :=
+  match order with
+  | [] => default_order n
+  | _ => if negb (Nat.eqb (length order) n) then default_order n
+         else if iter_order_valid n order then order else []
+  end.
+Definition iter_next_order (nx order : list Z) (it : Z) : option (list Z) :=
+  iter_order_loop nx (rev order) (prodZ nx) it (map (fun _ => 0%Z) nx).
+(* with the default order idim = jdim: the loop is the one of rankToIndice *)
 Definition iter_next (nx : list Z) (it : Z) : list Z * Z :=
   (rev (r2i_rev (rev nx) (prodZ nx) it), if (it <? prodZ nx - 1)%Z then (it + 1)%Z else it).
 Fixpoint iter_run (nx : list Z) (k : nat) (it : Z) : list (list Z) :=
@@ -213,30 +253,3 @@ Fixpoint iter_run (nx : list Z) (k : nat) (it : Z) : list (list Z) :=
   | O => []
   | S k' => let r := iter_next nx it in fst r :: iter_run nx k' (snd r)
   end.
-(* iteratorNext with a user order: the validity check of iteratorInit reads order as 1-based (|o|-1),
-   iteratorNext uses idim = |o| as a 0-based index.  [None] = an access beyond the arrays. *)
-Fixpoint upd (l : list Z) (k : nat) (v : Z) : option (list Z) :=
-  match l, k with
-  | [], _ => None
-  | _ :: r, O => Some (v :: r)
-  | x :: r, S k' => match upd r k' v with Some r' => Some (x :: r') | None => None end
-  end.
-Fixpoint iter_order_loop (counts : list Z) (ord_rev : list Z) (nval iech : Z) (acc : list Z) : option (list Z) :=
-  match ord_rev with
-  | [] => Some acc
-  | o :: rest =>
-      let idim := Z.to_nat (Z.abs o) in
-      match nth_error counts idim with
-      | None => None
-      | Some c => let nval' := Z.quot nval c in
-                  let dv := Z.quot iech nval' in
-                  match upd acc idim dv with
-                  | None => None
-                  | Some acc' => iter_order_loop counts rest nval' (iech - dv * nval')%Z acc'
-                  end
-      end
-  end.
-Definition iter_order_valid (n : nat) (order : list Z) : bool :=
-  forallb (fun idim => existsb (fun o => Z.eqb (Z.abs o - 1) (Z.of_nat idim)) order) (seq 0 n).
-Definition iter_next_order (nx order : list Z) (it : Z) : option (list Z) :=
-  iter_order_loop nx (rev order) (prodZ nx) it (map (fun _ => 0%Z) nx).
